@@ -88,7 +88,22 @@ LoggedSiblingUnique(e, P) ==
    Say(\A p \in LiveIds(e.post) \cup {0} : NoDup(KidDids(P, p)), e.id, "C03", "sibling_unique", e.op.name)
 
 (* ------------------------------------------------------------------------ *)
-CheckRec(e) ==
+(* C13, fault half: a user callback raised at its k-th invocation during e.op.target.  Nothing is expected of
+   the outcome except: the tree still satisfies C01-C03, and a read-only operation left it unchanged. *)
+CheckFault(e) ==
+   IF "bad" \in DOMAIN e THEN Say(FALSE, e.id, "C13", "fault.unprojectable:" \o e.bad, e.op.target)
+   ELSE LET P == LoadState(e.post) why == e.op.target \o "#" \o ToString(e.op.k) IN
+        /\ LoggedWellFormed([e EXCEPT !.op = [name |-> why]], P)
+        /\ LoggedIndexExact([e EXCEPT !.op = [name |-> why]], P)
+        /\ LoggedSiblingUnique([e EXCEPT !.op = [name |-> why]], P)
+        /\ Say(~e.op.readonly \/ Unchanged(e.pre, e.post), e.id, "C13", "fault.readonly_changed_tree", why)
+        /\ Say(WellFormed(P) /\ SiblingUnique(P), e.id, "C13", "fault.tree_corrupt", why)
+        /\ Say(e.obs.count = Cardinality(LiveIds(e.post)), e.id, "C13", "fault.count", why)
+        /\ Say(\A j \in 1..Len(e.obs.by_did) :
+                  SeqSet(e.obs.by_did[j][2]) = {i \in LiveIds(e.post) : e.post.did[i] = e.obs.by_did[j][1]},
+               e.id, "C13", "fault.index", why)
+
+CheckStep(e) ==
    LET id  == e.id
        S0  == LoadState(e.pre)
        W   == [t |-> S0, s |-> IF "src" \in DOMAIN e THEN LoadState(e.src) ELSE EmptyTree(S0.typed)]
@@ -128,6 +143,7 @@ CheckRec(e) ==
    /\ (e.op.name \in CopyOps /\ e.status = "ok" /\ r.ok =>
          Say(e.post.n = X.n /\ SameState(X, e.post), id, "C07", "copy_not_faithful", why))
 
+CheckRec(e) == IF e.op.name = "fault" THEN CheckFault(e) ELSE CheckStep(e)
 ASSUME \A i \in 1..Len(Recs) : CheckRec(Recs[i])
 ASSUME PrintT(<<"CHECKED", Len(Recs)>>)
 
